@@ -4,6 +4,7 @@ import (
 	"fmt"
 	"math"
 	"strings"
+	"time"
 
 	"verif/internal/drive"
 	"verif/internal/gen"
@@ -110,6 +111,7 @@ func (c02) Plan(tier string, seed int64) []mon.Workload {
 		{Name: "in-context", N: int64(len(gen.BinOps) * len(c02CtxVals) * len(c02CtxVals) * len(c02Contexts)), Exhaustive: true},
 		{Name: "membership-after-write", N: int64(len(c02MemLens) * len(c02MemHomes) * len(c02MemWrites) * 4), Exhaustive: true},
 		{Name: "big-operands", N: int64(len(c02BigSizes) * 3), Exhaustive: true},
+		{Name: "point-key-compound", N: int64(len(c02PKTargets) * len(c02PKRhs) * 5 * len(c02PKWraps)), Exhaustive: true},
 	}
 }
 
@@ -214,6 +216,37 @@ func c02BigOperands(i int64) c02Case {
 		panic(err)
 	}
 	return c02Case{Stmts: gt.CloneStmts(l), Point: gen.ModelPoint(gen.Rand(1), nil, nil), Cell: ""}
+}
+
+// point-key-compound (exhaustive): `T op= R` where the target T is read from
+// the POINT (no variable of that name yet: a field of every type, a tag, an
+// absent key) and R is a literal, a variable, another point key, the same
+// key, an expression over two keys, a call over a key - straight-line, in a
+// loop (second iteration: T is a variable by then) and in a branch. The left
+// operand is the target's value at the moment of the operation.
+var c02PKTargets = []string{"pi", "pf", "ps", "pt", "pn", "pb"}
+var c02PKRhs = []string{"3", "v", "pi", "pf", "ps", "T", "pi + pf", "pi * 2 - pf", "(pi)", "t(1, pf)", "-pi", "pt", "pn"}
+var c02PKWraps = []string{"S\n", "for i = 0; i < 2; i = i + 1 {\n  S\n  p(T)\n}\n", "if pi == 10 {\n  S\n}\n", "w = T\nS\np(w)\n", "S\nS\n"}
+
+func c02PointKeyCompound(i int64) c02Case {
+	wrap := c02PKWraps[int(i)%len(c02PKWraps)]
+	i /= int64(len(c02PKWraps))
+	op := []string{"+=", "-=", "*=", "/=", "%="}[i%5]
+	i /= 5
+	rhs := c02PKRhs[int(i)%len(c02PKRhs)]
+	tgt := c02PKTargets[int(i)/len(c02PKRhs)]
+	st := tgt + " " + op + " " + strings.ReplaceAll(rhs, "T", tgt)
+	text := "v = 4\n" + strings.ReplaceAll(strings.ReplaceAll(wrap, "S", st), "T", tgt) + "p(" + tgt + ", pi, pf, ps, pt, pn)\n"
+	o := drive.Parse("point-key-compound", text)
+	if o.Err != nil {
+		panic("c02: point-key-compound program does not parse: " + text + ": " + o.Err.Error())
+	}
+	l, err := gt.FromStmts(o.Stmts)
+	if err != nil {
+		panic(err)
+	}
+	pt := ref.NewPoint("m", map[string]string{"pt": "7"}, map[string]any{"pi": int64(10), "pf": 1.5, "ps": "s", "pb": true}, time.Unix(1700000000, 0))
+	return c02Case{Stmts: gt.CloneStmts(l), Point: pt, Cell: ""}
 }
 
 func c02Membership(i int64) c02Case {
@@ -375,6 +408,8 @@ func (c02) build(c *mon.Ctx, workload string, i int64) c02Case {
 		return c02Membership(i)
 	case "big-operands":
 		return c02BigOperands(i)
+	case "point-key-compound":
+		return c02PointKeyCompound(i)
 	case "binary-table":
 		src := int(i % 3)
 		i /= 3
